@@ -359,6 +359,24 @@ func runC02() {
 				c.value(seqx.Field{M: m, Key: k, Val: vals[len(vals)-1]}, nil, c.eps[:4])
 			}
 		}
+		// containers and marshalers, including their nil / empty forms ("nil as null"), through every entry point
+		for _, f := range alpha.Full {
+			switch f.M {
+			case "Object", "Dict", "Array":
+				eps := c.eps
+				if f.M == "Object" && f.Form == "nil" {
+					// an untyped nil marshaler has no array-element form (Array.Object(nil) dereferences it; the
+					// harness substitutes a typed nil there, which renders {}): not compared at array positions
+					eps = nil
+					for _, ep := range c.eps {
+						if !strings.Contains(ep.name, "array") {
+							eps = append(eps, ep)
+						}
+					}
+				}
+				c.value(seqx.Rekey(f, 0), nil, eps)
+			}
+		}
 		c.value(seqx.Field{M: "TimeDiff", Key: "key", Val: seqx.TFix, Val2: seqx.TEp}, nil, c.eps[:4])
 		c.value(seqx.Field{M: "TimeDiff", Key: "key", Val: seqx.TEp, Val2: seqx.TFix}, nil, c.eps[:4])
 		// Part B: integers
